@@ -3,7 +3,7 @@ import Aergo.Model.Admit
 
 /-! Model driver for C14: `model-c14 < ops > out`.
 
-    tx  k=v …   a governance transaction: admission (`admit`) and execution (`execute`) outcome
+    tx  k=v …   a governance transaction: admission (`poolAdmit`) and execution (`execute`) outcome
     val k=v …   any transaction: outcome of `Validate` alone
     up <hex> / low <hex>   the model's `strings.ToUpper` / allowed-character test on a string (rune tables)
     json <hex>  decoding of a payload into CallInfo: `err` or name/number of args/kinds
@@ -185,7 +185,7 @@ def c14Step (line : String) : String :=
   match words line with
   | "tx" :: ws =>
     match envOf (kvOf ws) with
-    | .ok e => s!"admit={showOut (admit pinned e)} exec={showExec (execute pinned e)}"
+    | .ok e => s!"adm={showOut (poolAdmit pinned e)} exec={showExec (execute pinned e)}"
     | .error _ => "bad-op"
   | "val" :: ws =>
     match envOf (kvOf ws) with
